@@ -49,6 +49,13 @@ type CrashResult struct {
 func runChild(c Case) (killed bool, res *Result, note string) {
 	b, _ := json.Marshal(c)
 	cmd := exec.Command(os.Args[0], "-child")
+	if c.KeepOut != "" {
+		// a child that kills itself cannot clean up: let its scratch directory live inside the parent's, which is removed
+		ct := filepath.Join(filepath.Dir(c.KeepOut), "childtmp")
+		if os.MkdirAll(ct, 0o755) == nil {
+			cmd.Env = append(os.Environ(), "TMPDIR="+ct)
+		}
+	}
 	cmd.Stdin = strings.NewReader(string(b) + "\n")
 	out, err := cmd.Output()
 	if err != nil {
